@@ -30,6 +30,16 @@ Oracle per sub-case (statement of C19):
   decode    the converter decodes every returned candidate to a member of the
             search space (independent membership oracle of harness/spaces.py)
   any exception from the optimiser call is a violation.
+
+Every score function also carries a *trap*: a point with an out-of-domain real
+feature (NaN, outside [0,1], category index < 0 or >= size) scores 1e3, above
+every in-domain score, so an optimiser that ever evaluates (or accepts as a
+prior) such a point reports it as its best and fails the bounds clause.
+In 1 of 4 cases with categorical features the same process first optimises a
+*sibling layout* (same parameter names / kinds / padding, category counts +2)
+and afterwards another one (counts -1): state shared across studies (caches
+keyed on names) shows up as a category index >= size in the main run or in the
+small sibling's run (buckets prefixed sibling_large/ sibling_small/).
 """
 import math
 import os
@@ -49,8 +59,12 @@ RULE = ('Hypothesis draws a static configuration (one of 24 layouts: 0-4 '
         'evaluations); n_parallel None|1|2; use_fori; 0..12 prior trials) and '
         '2-4 (quick) / 2-8 (thorough) sub-cases (seed, score function from the grammar: weighted '
         'negative squared distance to an interior/corner target + weighted '
-        'categorical indicators, optional floor-plateaus, optional NaN/-inf '
-        'region, optional optimum placed on a prior point). evaluations = '
+        'categorical indicators, optional floor-plateaus, optional NaN / -inf '
+        '/ +inf region (half space, one category, or exactly the target '
+        'point), optional optimum placed on a prior point, out-of-domain '
+        'trap). 1 case in 5 is steered to trial-padded priors with '
+        'n_parallel=2 and an odd prior count; 1 in 4 categorical cases runs '
+        'sibling layouts (other category counts) before and after. evaluations = '
         'optimiser runs (3 per sub-case: seed, other seed, seed again; +1 on '
         'a rebuilt optimiser in 1 of 4 cases). 5 of 6 prior cases and 7 of 8 '
         'random-strategy cases on padded layouts are steered away from the '
@@ -96,11 +110,11 @@ def _score_desc():
   bad = st.one_of(
       st.none(),
       st.fixed_dictionaries({
-          'kind': st.sampled_from([1, 2, 3]),
+          'kind': st.sampled_from([1, 2, 3, 3, 4]),
           'dim': st.integers(0, 3),
           'thr': st.one_of(st.floats(0.0, 1.0, allow_nan=False, width=32),
                            st.integers(0, 4).map(float)),
-          'val': st.sampled_from(['nan', '-inf'])}))
+          'val': st.sampled_from(['nan', '-inf', '+inf', '+inf'])}))
   return st.fixed_dictionaries({
       't': st.lists(coord, min_size=4, max_size=4),
       'wd': st.one_of(st.sampled_from([0.0, 1.0, 1.0]),
@@ -116,7 +130,15 @@ def _score_desc():
 @st.composite
 def _case(draw, max_subs=6):
   from harness import c19_lib as lib
-  layout = draw(st.integers(0, len(lib.LAYOUTS) - 1))
+  layout = draw(st.integers(0, lib.N_MAIN - 1))
+  # 1 case in 5: priors that are padded in the trial dimension, n_parallel=2
+  # and an odd number of priors (the last parallel batch would mix a real
+  # prior with a padding row)
+  partial = draw(st.integers(0, 4)) == 0
+  if partial:
+    layout = draw(st.sampled_from(
+        [i for i in range(lib.N_MAIN)
+         if lib.LAYOUTS[i]['pad'] in ('pow2', 'mult10')]))
   info = lib.layout_info(layout)
   padded = (info['n_cont_pad'] != info['n_cont']
             or info['n_cat_pad'] != info['n_cat'])
@@ -127,6 +149,8 @@ def _case(draw, max_subs=6):
   batch = draw(st.sampled_from([1, 5, 25]))
   use_fori = draw(st.booleans())
   n_prior = draw(st.one_of(st.just(0), st.integers(1, 12)))
+  if partial:
+    n_prior = draw(st.sampled_from([3, 5, 7, 9, 11]))
   nfeat = info['n_cont'] + info['n_cat']
   pool_steps = lib.eagle_pool_size(nfeat, batch) // batch
   if use_fori:
@@ -152,6 +176,8 @@ def _case(draw, max_subs=6):
   count = draw(st.one_of(st.integers(1, min(8, evaluations)),
                          st.just(min(8, evaluations))))
   n_parallel = draw(st.sampled_from([None, None, 1, 2]))
+  if partial:
+    n_parallel = 2
   subs = []
   for _ in range(draw(st.integers(2, max_subs))):
     prior = []
@@ -170,7 +196,9 @@ def _case(draw, max_subs=6):
                       if n_prior else None),
     })
   rebuild = draw(st.integers(0, 3)) == 0
-  return {'rebuild': rebuild, 'layout': layout, 'strategy': strategy,
+  sibling = lib.has_sibling(layout) and draw(st.integers(0, 3)) == 0
+  return {'rebuild': rebuild, 'sibling': sibling, 'layout': layout,
+          'strategy': strategy,
           'batch': batch,
           'max_evaluations': max_evaluations, 'count': count,
           'n_parallel': n_parallel, 'use_fori': use_fori, 'n_prior': n_prior,
@@ -230,8 +258,32 @@ def _same(a, b):
       a.dtype.kind == 'f')))
 
 
+def _sibling_run(out, case, which):
+  """Full oracle on a sibling layout (eagle, 50 evaluations, count 8).
+
+  The score prefers the highest category of every feature, so stale (larger)
+  category counts taken from another study surface as indices >= size.
+  """
+  from harness import c19_lib as lib
+  sib = lib.sibling(case['layout'], which)
+  info = lib.layout_info(sib)
+  sc = {'t': [0.5] * 4, 'wd': 1.0, 'c': [max(0, s - 1) for s in
+                                            (info['sizes'] + [1] * 4)[:4]],
+        'wc': [1.0] * 4, 'kp': 0.0, 'bad': None, 'red': 0}
+  sub_case = {'rebuild': False, 'sibling': False, 'layout': sib,
+              'strategy': 'eagle', 'batch': 25, 'max_evaluations': 50,
+              'count': 8, 'n_parallel': None, 'use_fori': True, 'n_prior': 0,
+              'subs': [{'seed': case['subs'][0]['seed'], 'score': sc,
+                        'prior': [], 'opt_prior': None}]}
+  res = check(sub_case, _runs=1)
+  for v in res.violations:
+    out.violate('sibling_%s/%s' % (which, v['bucket']), v['detail'])
+  for k, n in res.counters.items():
+    out.count(k, n)
+
+
 # ----------------------------------------------------------------------- check
-def check(case):
+def check(case, _runs=3):
   import datetime
   import jax
   import numpy as np
@@ -286,6 +338,8 @@ def check(case):
       out.cls('prior_fewer_than_n_parallel')
     if n_prior % par:
       out.cls('prior_remainder_dropped')
+      if lib.padded_trials(n_prior, info['pad']) != n_prior:
+        out.cls('prior_partial_batch_with_padding')
   if strategy == 'eagle':
     out.cls('eagle_budget_lt_pool' if steps * batch < pool
             else 'eagle_mutation_phase' if steps * batch > pool
@@ -297,6 +351,12 @@ def check(case):
     out.cls('known_trigger:random_padding')
   if trig_prior:
     out.cls('known_trigger:prior_not_merged')
+
+  if case.get('sibling') and lib.has_sibling(L):
+    # another "study" in the same process: same parameter names, kinds and
+    # padding, larger category counts, optimised BEFORE the main layout ...
+    out.cls('sibling_runs')
+    _sibling_run(out, case, 'large')
 
   try:
     opt, jopt = lib.optimizer(L, strategy, batch, case['max_evaluations'],
@@ -343,8 +403,10 @@ def check(case):
     tol = 1e-5 * (1.0 + scale)
     bad_kind = int(score.bad_kind)
     if bad_kind:
-      out.cls('score_nan_region' if sd['bad']['val'] == 'nan'
-              else 'score_neginf_region')
+      out.cls({'nan': 'score_nan_region', '-inf': 'score_neginf_region',
+               '+inf': 'score_posinf_region'}[sd['bad']['val']])
+      if bad_kind == 4:
+        out.cls('score_region_is_target_point')
     if float(score.kp) > 0:
       out.cls('score_plateau')
     if nc and float(score.wd) > 0:
@@ -375,9 +437,12 @@ def check(case):
 
     try:
       res, log = run(sub['seed'])
-      res_other, _ = run((sub['seed'] + 1) % (2**31))
-      res_again, log_again = run(sub['seed'])
-      out.count(EVAL_COUNTER, 3)
+      if _runs == 1:  # sibling run: bounds / reward / decode clauses only
+        res_other = res_again = res
+      else:
+        res_other, _ = run((sub['seed'] + 1) % (2**31))
+        res_again, _ = run(sub['seed'])
+      out.count(EVAL_COUNTER, _runs)
     except Exception as e:  # pylint: disable=broad-except
       out.count(EVAL_COUNTER, 1)
       kind = type(e).__name__
@@ -442,6 +507,10 @@ def check(case):
               else np.zeros([0], np.float32))
     # fewer real-valued evaluations than `count` although NaN-scored ones
     # exist: what fills the rest is decided by the ranking of NaN
+    if np.any(loop_r == np.inf):
+      out.cls('posinf_evaluated')
+      if np.any(rw == np.inf):
+        out.cls('posinf_returned')
     nan_shortfall = bool(np.sum(~np.isnan(loop_r)) < count
                          and np.any(np.isnan(loop_r)))
     # ---- (3) reported reward == score at the candidate
@@ -605,6 +674,9 @@ def check(case):
           out.violate('decode/exception/best_candidates_to_trials/%s/%s' % (
               type(e).__name__, _vizier_frame(e)), '%s: %r' % (tag, e))
 
+  if case.get('sibling') and lib.has_sibling(L):
+    # ... and one with smaller category counts AFTER it
+    _sibling_run(out, case, 'small')
   # ---- (5b) same seed on a freshly built (re-traced, re-compiled) optimiser
   first = first_box[0]
   if case.get('rebuild') and first is not None:
@@ -646,6 +718,8 @@ def families(tier):
               'size1_category', 'count_gt1', 'count_gt_batch', 'prior',
               'prior_padded_trials', 'optimum_on_prior', 'prior_clause_active',
               'score_nan_region', 'score_neginf_region', 'score_plateau',
+              'score_posinf_region', 'posinf_evaluated', 'posinf_returned',
+              'prior_partial_batch_with_padding', 'sibling_runs',
               'target_corner', 'target_interior', 'score_categorical_only',
               'n_parallel_None', 'n_parallel_1', 'n_parallel_2',
               'use_fori_True', 'use_fori_False', 'eagle_mutation_phase',
